@@ -77,6 +77,16 @@ int (tolower)(int c) { return (c >= 'A' && c <= 'Z') ? c + ('a' - 'A') : c; }
 int (toupper)(int c) { return (c >= 'a' && c <= 'z') ? c - ('a' - 'A') : c; }
 #endif
 
+#if defined(V_STUB_MEMCHR) && !defined(NATIVE_REPLAY)
+/* CBMC 6.11 has no model of memchr */
+void *(memchr)(const void *s, int c, size_t n)
+{
+	const unsigned char *p = (const unsigned char *) s; size_t i;
+	for (i = 0; i < n; i++) if (p[i] == (unsigned char) c) return (void *) (p + i);
+	return (void *) 0;
+}
+#endif
+
 #ifdef V_STUB_STO
 /* allocator stub: fresh, non-NULL, suitably sized memory (that IS property C10's
  * claim; assumed here).  stoFree is a no-op so that use-after-free inside the
